@@ -784,21 +784,24 @@ function writes through (or appends to) a parameter slice, and no returned slice
 an argument.  Regenerated syntactic facts (`translator/ed448facts.go`, go/ast) pin exactly that; the
 harness stream `shape` exercises it on sub-slices with spare capacity and aliased arguments. -/
 
-/-- (1) no function of ed448/*.go writes through a parameter, except the two internal helpers into
-    their output buffer (first parameter) by `copy`; (2) every returned expression is a buffer freshly
-    made (`x := make(T, n)`, bound once) in the function, a constant, or a call — never a parameter, a
-    re-slicing of one, or `append(…)`; (3) the output buffer handed to `newKeyFromSeed` / `sign` is
-    always freshly made in the caller. -/
+/-- Stated by ROLE, no function is named (renaming a helper does not touch this):
+    (1) every function of ed448/*.go that writes through a parameter (assign / copy / append / clear /
+        element address / handing it to a writing function) is UNEXPORTED and does so by `copy` only —
+        so every exported function leaves its arguments untouched;
+    (2) at every call site of such a helper the argument bound to a written parameter is a buffer
+        freshly made in the caller (`x := make(T, n)`, bound once);
+    (3) every returned expression is such a fresh buffer, a constant, or a call — never a parameter,
+        a re-slicing of one, or `append(…)`;
+    (4) non-vacuity: the tables do contain exported functions, a writing helper and call sites. -/
 theorem ed448_args_readonly :
-    (Gen.Ed448Facts.paramWrites.all fun f =>
-        f.2.isEmpty ||
-        (f.1 == "ed448.newKeyFromSeed" && f.2.all (· == "copy into privateKey")) ||
-        (f.1 == "ed448.sign" && f.2.all (· == "copy into signature"))) = true ∧
+    (Gen.Ed448Facts.fnFacts.all fun f =>
+        f.2.2.isEmpty || (!f.2.1 && f.2.2.all fun w => w.1 == "copy")) = true ∧
+    (Gen.Ed448Facts.outCalls.all fun oc => oc.2 == "make") = true ∧
     (Gen.Ed448Facts.returns.all fun f => f.2.all fun c => c == "make" || c == "const" || c == "call") = true ∧
-    (Gen.Ed448Facts.helperDests.all fun f => f.2.all (· == "make")) = true ∧
-    (Gen.Ed448Facts.helperDests.lookup "ed448.NewKeyFromSeed" = some ["make"]) ∧
-    (Gen.Ed448Facts.helperDests.lookup "ed448.GenerateKey" = some ["make"]) ∧
-    (Gen.Ed448Facts.helperDests.lookup "ed448.Sign" = some ["make"]) := by
+    (Gen.Ed448Facts.fnFacts.any fun f => f.2.1) = true ∧
+    (Gen.Ed448Facts.fnFacts.any fun f => !f.2.2.isEmpty) = true ∧
+    Gen.Ed448Facts.outCalls.isEmpty = false ∧
+    Gen.Ed448Facts.returns.length = Gen.Ed448Facts.fnFacts.length := by
   decide
 
 /-! ## non-vacuity -/
